@@ -4,7 +4,7 @@ import ast
 
 from ..cfg import cfg_of
 from ..core import (
-    cond_facts, enclosing_func, Undecidable,
+    cond_facts, enclosing_func, Undecidable, in_block,
     ancestors, assigns_to, body_walk, call_attr, call_name, calls_in, const_value, dotted, enclosing_stmt, is_const, kwarg,
     nodes_of_type, parent, stores_to, unparse, walk_local, names_in, param_names,
 )
@@ -23,6 +23,7 @@ EXPLANATION = (
     "padding = A - (p mod A) with p the position after the length byte, A <= 255; C/F order handling; byte-order "
     "normalisation flag; the mmap gate; reduce tuples of the memmap reducers against the signatures they call; the "
     "auto-memmap threshold. numpy's own semantics (nditer, frombuffer, memmap) are trusted."
+    ' Compatibility probes by attribute absence are not answered by class-level defaults (C19.COMPAT-ABSENCE); a failing dump of an array propagates (no partial file is advertised, C19.DUMP-FAIL-PROPAGATES); the temporary folder is resolved at every use (C19.TEMP-FOLDER-LIVE).'
 )
 ASSUMPTIONS = [
     "numpy.nditer(order=o) with chunk.tobytes('C') emits the elements in order o; frombuffer/memmap reinterpret bytes faithfully",
@@ -674,7 +675,87 @@ def weakmap(ctx):
     ctx.check(bool(bn) and "uuid4().hex" in unparse(bn[0].value) and "os.getpid()" in unparse(bn[0].value), bn[0] if bn else fw, "fresh names contain the pid and a uuid (no two arrays share a file)")
 
 
+def compat_absence(ctx):
+    """Files written by older versions are recognised by the ABSENCE of an instance attribute on the un-pickled wrapper
+    (pickle restores __dict__ without calling __init__): readers probe it with getattr(self, name, default) / hasattr.
+    A class-level attribute of that name answers the probe for every old file with the new default - the reader then
+    expects a padding byte the old writer never wrote and reads the payload from a shifted offset."""
+    cls = ctx.repo.cls(NP, W)
+    probed = {}
+    for fn in [st for st in cls.body if isinstance(st, ast.FunctionDef)]:
+        for c in calls_in(fn):
+            if call_name(c) in ("getattr", "hasattr") and len(c.args) >= 2 and dotted(c.args[0]) == "self" and isinstance(c.args[1], ast.Constant) and (call_name(c) == "hasattr" or len(c.args) == 3):
+                probed[c.args[1].value] = c
+    ctx.floor(len(probed), 1, "attributes whose absence marks an old file")
+    class_level = {}
+    for st in cls.body:
+        if isinstance(st, (ast.Assign, ast.AnnAssign)):
+            if isinstance(st, ast.AnnAssign) and st.value is None:
+                continue
+            for t in stores_to(st):
+                class_level[t] = st
+    for name, probe in probed.items():
+        ctx.check(name not in class_level, class_level.get(name, probe), "`%s` exists on an instance only if the writer stored it (absence = file of an older version)" % name,
+                  "`%s` is also defined at class level: the probe `%s` can no longer tell a file of an older version (which has no such attribute) from a current one - "
+                  "the old layout is read with the new default" % (name, unparse(probe, 70)))
+
+
+def dump_fail_propagates(ctx):
+    """The file name handed to the workers (load_temporary_memmap) must denote a COMPLETE dump. The name is memoised per
+    array and an existing file is re-used without looking inside, so a dump that failed half-way may not be survived: every
+    handler around `dump(a, filename)` re-raises on every path (or the clause is undecidable if it cleans up in a way this
+    rule does not model)."""
+    f = F(ctx, "ArrayMemmapForwardReducer.__call__", MR)
+    g = cfg_of(f)
+    ds = [c for c in calls_in(f) if call_name(c) == "dump" and len(c.args) >= 2 and dotted(c.args[1]) == "filename"]
+    ctx.need(ds, "dump(a, filename) not found in the forward reducer")
+    for d in ds:
+        swallowed = None
+        child = d
+        for a_ in ancestors(d):
+            if a_ is f:
+                break
+            if isinstance(a_, ast.Try) and in_block(child, a_.body):
+                for h in a_.handlers:
+                    hn = g.nodes_of(h)
+                    raises = [n.id for n in g.nodes if isinstance(n.ast, ast.Raise)]
+                    r = g.reach([t for n_ in hn for (t, lab) in g.nodes[n_].succ], avoid=raises)
+                    if g.exit in r:          # the handler can be left other than by raising (return / fall through)
+                        swallowed = h
+            child = a_
+        ctx.check(swallowed is None, swallowed if swallowed is not None else d, "a failing dump of the array propagates (no partial file is ever advertised)",
+                  "a handler around `dump(a, filename)` can complete without re-raising: the partly written file stays under the name memoised for this array and is re-used "
+                  "as a complete dump for the next task that receives the array")
+    ex = [c for c in calls_in(f) if call_name(c) == "os.path.exists" and c.args and dotted(c.args[0]) == "filename"]
+    ctx.check(bool(ex), ex[0] if ex else f, "an existing file is re-used as is (which is why only complete files may exist)")
+
+
+def temp_folder_live(ctx):
+    """Each Parallel call gets its own temporary folder from the resources manager; the reducer lives as long as the
+    (re-used) executor. The folder must therefore be resolved at every use: a reducer that remembers the first answer keeps
+    writing to - and re-using files of - a folder of an earlier call (same array object, same memoised basename => the
+    stale file is handed out although the array was modified in between)."""
+    cls = ctx.repo.cls(MR, "ArrayMemmapForwardReducer")
+    prop = [st for st in cls.body if isinstance(st, ast.FunctionDef) and st.name == "_temp_folder"]
+    ctx.need(prop, "ArrayMemmapForwardReducer._temp_folder not found")
+    fn = prop[0]
+    rets = nodes_of_type(fn, ast.Return)
+    ctx.need(rets, "_temp_folder has no return")
+    for r in rets:
+        v = r.value
+        if isinstance(v, ast.Name):
+            d = _def(fn, v.id)
+            v = d[0].value if len(d) == 1 else v
+        ctx.check(isinstance(v, ast.Call) and call_name(v) == "self._temp_folder_resolver" and not v.args, r, "the temporary folder is asked from the resolver at every use",
+                  "_temp_folder returns `%s`, not a fresh answer of the resolver: the folder of an earlier call keeps being used" % unparse(r.value, 60))
+    kept = [a for a in nodes_of_type(fn, (ast.Assign, ast.AugAssign)) if any(t.startswith("self.") for t in stores_to(a))]
+    ctx.check(not kept, kept[0] if kept else fn, "the property stores nothing on the reducer", "the property remembers its answer (`%s`)" % (unparse(kept[0], 60) if kept else ""))
+
+
 def run(ctx):
+    ctx.run("C19.COMPAT-ABSENCE", "R-DUAL", compat_absence)
+    ctx.run("C19.DUMP-FAIL-PROPAGATES", "R-ERRDISC", dump_fail_propagates)
+    ctx.run("C19.TEMP-FOLDER-LIVE", "R-WHO", temp_folder_live)
     ctx.run("C19.WEAKMAP", "R-WHO", weakmap)
     ctx.run("C19.INTERCEPT", "R-TABLE/R-ORDER", intercept)
     ctx.run("C19.META", "R-FLOW", meta)
